@@ -142,7 +142,7 @@ func QRstep(H, U Matrix, p, q int, inSitu *InSitu) {
   }
 }
 
-func francisQRstep(H, U Matrix, p, q int, inSitu *InSitu) {
+func francisQRstep(H, U Matrix, p, q int, inSitu *InSitu, exceptional bool) {
 
   var u Matrix
 
@@ -177,6 +177,17 @@ func francisQRstep(H, U Matrix, p, q int, inSitu *InSitu) {
   t1.Mul(h11, h22)
   t2.Mul(h12, h21)
   t .Sub(t1 , t2)
+
+  if exceptional && n >= 3 {
+    // ad hoc shift (as in EISPACK hqr) that breaks the cycles of the
+    // standard double shift, e.g. on the companion matrix of x^n - 1
+    // w = |h(n,n-1)| + |h(n-1,n-2)|, s = 1.5 w, t = w^2
+    t1.Abs(H22.At(n-1, n-2))
+    t2.Abs(H22.At(n-2, n-3))
+    t1.Add(t1, t2)
+    s.Mul(t1, ConstFloat64(1.5))
+    t.Mul(t1, t1)
+  }
 
   h11 = H22.At(0,0)
   h12 = H22.At(0,1)
@@ -303,7 +314,9 @@ func qrAlgorithm(inSitu *InSitu, epsilon float64) (Matrix, Matrix, error) {
   }
 
   // apply Francis QR steps
-  for p, q := 0, 0; q < n-1; {
+  // iter : number of steps since the last deflation
+  // total: number of steps
+  for p, q, iter, total := 0, 0, 0, 0; q < n-1; iter, total = iter+1, total+1 {
     verifhook.Tick("qrAlgorithm.francis")
 
     for i := 0; i < n-1; i++ {
@@ -316,10 +329,15 @@ func qrAlgorithm(inSitu *InSitu, epsilon float64) (Matrix, Matrix, error) {
     }
     // p: number of rows/cols in H11
     // q: number of rows/cols in H33
-    p, q = splitMatrix(h, q)
-
+    if p_, q_ := splitMatrix(h, q); p_ != p || q_ != q {
+      p, q, iter = p_, q_, 0
+    }
+    if total > 2000*n {
+      return nil, nil, fmt.Errorf("QR algorithm failed to converge within %d iterations", total)
+    }
     if q < n-1 {
-      francisQRstep(h, u, p, q, inSitu)
+      // exceptional shift in every 100th step without deflation
+      francisQRstep(h, u, p, q, inSitu, iter > 0 && iter % 100 == 0)
     }
   }
   // reduce 2x2 blocks along the diagonal
